@@ -20,7 +20,7 @@ static std::string judge(const Spec &s, const NumCase &c, const std::string &sub
       if (o.status == 3) st.count("skipped_near_switching_surface");
       if (o.status != 3 && o.err < 1e299) { int b = o.err <= 0 ? -20 : (int)floor(log2(o.err)); if (b > 40) b = 40; if (b < -20) b = -20; st.count("errhist_log2:" + std::to_string(b)); st.maxi("max_err:" + s.name + "/" + o.label + (c.prec ? "/ld" : "/d"), o.err); }
       if (o.errab >= 0) { st.maxi("max_errab:" + s.name + "/" + o.label + (c.prec ? "/ld" : "/d"), o.errab); int b = o.errab <= 0 ? -20 : (int)floor(log2(o.errab)); st.count("errabhist_log2:" + std::to_string(b)); }
-      if (o.status == 0 || o.status == 2) { if (o.err < 1e299) st.maxi(std::string("max_err_eps_mag:") + (c.prec ? "ld" : "d"), o.status == 0 ? o.err : 0); }
+      if (o.status == 0 && !o.finding_cell && o.err < 1e299) st.maxi(std::string("max_err_eps_mag(clean cells):") + (c.prec ? "ld" : "d"), o.err);
       if (o.status == 2) { st.count("known_finding_cells:" + o.finding);
         std::string f = g_faildir + "/finding_" + slug(o.finding) + ".case";
         struct stat sb; if (stat(f.c_str(), &sb) != 0) { NumCase cc = c; write_file(f, case_to_text(cc, g_prop, o.label)); st.findings.push_back("{\"key\":\"" + jesc(o.finding) + "\",\"file\":\"" + jesc(f) + "\",\"note\":\"" + jesc(o.note) + "\"}"); } } }
@@ -39,7 +39,7 @@ static int replay(const std::string &file) {
   std::ifstream f(file); std::stringstream ss; ss << f.rdbuf(); NumCase c; std::string prop;
   if (!case_from_text(ss.str(), c, prop)) { fprintf(stderr, "not a numcase file: %s\n", file.c_str()); return 2; }
   g_prop = prop; const Spec *s = find_spec(c.sol); if (!s) { fprintf(stderr, "unknown solution %s\n", c.sol.c_str()); return 2; }
-  { bool is_ev = false; for (auto &e : s->evals) if (e.label == c.only) is_ev = true; if (!is_ev) c.only.clear(); }   // relations (labels that are not evaluators) are evaluated with the whole case
+  c.only.clear();   // a replay evaluates the whole case (both phases, all relations): the label in the file is informational
   auto out = run_case(*s, c, g_K, prop); int worst = 0;
   for (auto &o : out) { fprintf(stderr, "  %-28s lib=%-26s ref=%s mag=%s err=%.4g eps*mag status=%d %s\n", o.label.c_str(), decld(o.lib).c_str(), str(o.ref).c_str(), str(Q(o.ref.m)).c_str(), o.err, o.status, o.note.c_str()); if (o.status == 1) worst = std::max(worst, 2); if (o.status == 2) worst = std::max(worst, 1); }
   fprintf(stderr, "REPLAY %s\n", worst == 2 ? "violation" : worst == 1 ? "finding" : "pass");
